@@ -128,16 +128,22 @@ def run(ctx):
             eq(ctx, "R1", f"{k}: zero weights drop their material [{label}]", g, d, csite,
                nonzero=[rho * I.getattr(tz, "mass")])
         ctx.unit("functions_inlined", len(set(I.calls)))
-    ctx.floor("R1", 47)
+    ctx.floor("R1", 45)
     ctx.floor("R2", 2)
     # _sum_piece is the per-compound loop of neutron_scattering (same four sums)
     w, lam, mats = _setup(ctx, False)
     I = w.I
-    sp_ = I.call(I.global_name("nsf", "_sum_piece"), [lam, mats[0]], {})
-    atoms = I.getattr(mats[0], "atoms")
-    n = sum(atoms.values())
-    ctx.check(len(sp_) == 4, "R1", "_sum_piece returns (num_atoms, molar_mass, b_c, sigma_s)", f"returned {_s(sp_)}",
-              fsite(ctx, "nsf._sum_piece"))
-    eq(ctx, "R1", "_sum_piece: number of atoms", sp_[0], n, fsite(ctx, "nsf._sum_piece"))
-    eq(ctx, "R1", "_sum_piece: molar mass", sp_[1], I.getattr(mats[0], "mass"), fsite(ctx, "nsf._sum_piece"))
+    # (an internal helper: examined only while it exists with these parameter names; the calculator identities above
+    # are what the property needs)
+    spf = ctx.src.funcs.get("nsf._sum_piece")
+    if spf is not None and {"wavelength", "compound"} <= {a.arg for a in spf.node.args.args}:
+        sp_ = I.call(I.global_name("nsf", "_sum_piece"), [], {"wavelength": lam, "compound": mats[0]})
+        atoms = I.getattr(mats[0], "atoms")
+        n = sum(atoms.values())
+        vals = list(sp_) if isinstance(sp_, (tuple, list)) else []
+        if len(vals) == 4:
+            by_value = [v for v in vals if algebra.equal(v, n, seed=ctx.seed)[0]]
+            ctx.check(bool(by_value), "R1", "_sum_piece: one of the four sums is the number of atoms", f"returned {_s(sp_)}", fsite(ctx, "nsf._sum_piece"))
+            by_value = [v for v in vals if algebra.equal(v, I.getattr(mats[0], "mass"), seed=ctx.seed)[0]]
+            ctx.check(bool(by_value), "R1", "_sum_piece: one of the four sums is the molar mass", f"returned {_s(sp_)}", fsite(ctx, "nsf._sum_piece"))
     ctx.assume("numpy broadcasting aligns trailing axes; np.sum(axis=0) reduces the leading (material) axis")
